@@ -27,7 +27,12 @@ ASSUMPTIONS = ['pandas arithmetic of two Series on one index is pointwise with N
                '(no common column) fed on into an operator with a fill method, ONE-column frames as operands of min_/max_ (mmx lines: statement only, known finding '
                'C08-A2), negative or fractional exponents, df_std, float rounding; aggregates over a mix of frames and Series / one-column frames are checked '
                'against the statement only (aggx, known finding C08-A1). Modelled since round g2: column policies lj/rj, DataFrame operands of pow_ / comparisons / min_ / max_',
-               'aggregates: a scalar operand counts at every timestamp / in every cell, a NaN scalar never (PygModel/Ops.lean aggregate, OpsF.lean aggregateFS, sampled)']
+               'aggregates: a scalar operand counts at every timestamp / in every cell, a NaN scalar never (PygModel/Ops.lean aggregate, OpsF.lean aggregateFS, sampled)',
+               '"lists of operands reduce left to right": the MODEL (opList / opListF) copies the wrappers - add_ / mul_ are the left fold, sub_ / div_ reduce each side with add_ / mul_ first; '
+               'the CLAUSE (left fold of the binary operator over as_list(a) + as_list(b), for all four operators) is checked on redx lines against binary calls of the implementation: '
+               'sub_ / div_ fail it for a list on the left (known finding C08-A3, theorems sub/div_list_left_not_left_fold) and agree for a list on the right by value '
+               '(sub_div_right_list_left_fold). sub_ / div_ / pow_ have no default b: a list alone (list-none) is generated for add_ / mul_ only; under columns = "oj" the neutral element '
+               'is applied per step of the fold (oj_neutral_per_step)']
 S = 4
 nan = float('nan')
 VALS = [0.0, 0.0, 1.0, -1.0, 2.0, 0.5, -0.25, 3.0, 1.5]
